@@ -173,7 +173,7 @@ theorem buildLoop_lookup (lf : Bool) : ∀ (E : List Bytes) (i bad : Nat) (acc f
     | volumeLabel => simp only [ht] at h; exact generic _ ht (by simp) (by simp) h
     | longName => simp only [ht] at h; exact generic _ ht (by simp) (by simp) h
 
-/-! ## a root-level name in canonical spelling -/
+/-! ## a root-level name (any case: `normalize_path` converts every node to upper case) -/
 
 structure RootArg (p : Bytes) : Prop where
   ne : p ≠ []
@@ -181,10 +181,9 @@ structure RootArg (p : Bytes) : Prop where
   noStar : 42 ∉ p
   noQ : 63 ∉ p
   len : p.length ≤ 62
-  up : upper p = p
 
-/-- the key under which `get_file` looks the name up -/
-def keyOf (p : Bytes) : Bytes := if p.contains 46 then trimEnd p else trimEnd p ++ [46]
+/-- the key under which `get_file` looks the name up (after `normalize_path` made it upper case) -/
+def keyOf (p : Bytes) : Bytes := lookupKey (upper p)
 
 theorem splitOn_not_mem (sep : Nat) : ∀ (l : Bytes), sep ∉ l → splitOn sep l = [l] := by
   intro l
@@ -197,7 +196,93 @@ theorem splitOn_not_mem (sep : Nat) : ∀ (l : Bytes), sep ∉ l → splitOn sep
     rw [splitOn, ih hcs]
     simp [hc]
 
-theorem normalizePath_root {p : Bytes} (a : RootArg p) : normalizePath p = .ok [p] := by
+theorem upperByte_idem (c : Nat) : upperByte (upperByte c) = upperByte c := by
+  unfold upperByte
+  by_cases h : 97 ≤ c ∧ c ≤ 122
+  · have h' : ¬ (97 ≤ c - 32 ∧ c - 32 ≤ 122) := by omega
+    simp only [h, and_self, if_true]
+    rw [if_neg h']
+  · simp [h]
+
+/-- `to_uppercase` neither creates nor removes a byte that is not a letter -/
+theorem upperByte_eq_iff {c k : Nat} (h1 : ¬ (65 ≤ k ∧ k ≤ 90)) (h2 : ¬ (97 ≤ k ∧ k ≤ 122)) : upperByte c = k ↔ c = k := by
+  unfold upperByte
+  split <;> omega
+
+theorem upper_idem (l : Bytes) : upper (upper l) = upper l := by
+  unfold upper
+  rw [List.map_map]
+  apply List.map_congr_left
+  intro c _
+  exact upperByte_idem c
+
+theorem mem_upper_iff {k : Nat} (h1 : ¬ (65 ≤ k ∧ k ≤ 90)) (h2 : ¬ (97 ≤ k ∧ k ≤ 122)) (l : Bytes) : k ∈ upper l ↔ k ∈ l := by
+  unfold upper
+  rw [List.mem_map]
+  constructor
+  · rintro ⟨c, hc, e⟩
+    rw [(upperByte_eq_iff h1 h2).mp e] at hc
+    exact hc
+  · intro h
+    exact ⟨k, h, (upperByte_eq_iff h1 h2).mpr rfl⟩
+
+theorem upper_length (l : Bytes) : (upper l).length = l.length := by simp [upper]
+
+theorem isAsciiSpace_upperByte (c : Nat) : isAsciiSpace (upperByte c) = isAsciiSpace c := by
+  unfold isAsciiSpace upperByte
+  split
+  · rename_i h
+    have a1 : (c - 32 == 32) = false := by simp; omega
+    have a2 : (c == 32) = false := by simp; omega
+    have a3 : (decide (9 ≤ c - 32) && decide (c - 32 ≤ 13)) = false := by simp; omega
+    have a4 : (decide (9 ≤ c) && decide (c ≤ 13)) = false := by simp; omega
+    rw [a1, a2, a3, a4]
+  · rfl
+
+theorem trimEnd_upper (s : Bytes) : trimEnd (upper s) = upper (trimEnd s) := by
+  unfold trimEnd upper
+  have hf : (isAsciiSpace ∘ upperByte) = isAsciiSpace := by
+    funext c
+    exact isAsciiSpace_upperByte c
+  rw [← List.map_reverse, List.dropWhile_map, ← List.map_reverse, hf]
+
+theorem splitOnce_upper : ∀ (l : Bytes), splitOnce 46 (upper l) =
+    (match splitOnce 46 l with | some (a, b) => some (upper a, upper b) | none => none) := by
+  intro l
+  induction l with
+  | nil => rfl
+  | cons c cs ih =>
+    have hu : upper (c :: cs) = upperByte c :: upper cs := rfl
+    rw [hu, splitOnce, splitOnce]
+    by_cases hc : c = 46
+    · subst hc
+      have : upperByte 46 = 46 := by decide
+      simp [this, upper]
+    · have hc' : ¬ (upperByte c = 46) := fun e => hc ((upperByte_eq_iff (by omega) (by omega)).mp e)
+      rw [if_neg hc, if_neg hc', ih]
+      cases splitOnce 46 cs with
+      | none => rfl
+      | some ab => obtain ⟨a, b⟩ := ab; rfl
+
+theorem upper_append (a b : Bytes) : upper (a ++ b) = upper a ++ upper b := by simp [upper]
+
+theorem lookupKey_upper (l : Bytes) : lookupKey (upper l) = upper (lookupKey l) := by
+  unfold lookupKey
+  rw [splitOnce_upper]
+  cases splitOnce 46 l with
+  | none =>
+    simp only [trimEnd_upper, upper_append]
+    rfl
+  | some ab =>
+    obtain ⟨a, b⟩ := ab
+    simp only [trimEnd_upper, upper_append]
+    rfl
+
+theorem upper_keyOf (p : Bytes) : upper (keyOf p) = keyOf p := by
+  unfold keyOf
+  rw [← lookupKey_upper, upper_idem]
+
+theorem normalizePath_root {p : Bytes} (a : RootArg p) : normalizePath p = .ok [upper p] := by
   obtain ⟨c, cs, rfl⟩ : ∃ c cs, p = c :: cs := by
     cases p with
     | nil => exact absurd rfl a.ne
@@ -210,20 +295,10 @@ theorem normalizePath_root {p : Bytes} (a : RootArg p) : normalizePath p = .ok [
   have h1 : (c :: cs).isEmpty = false := rfl
   have h2 : ((c :: cs).head? ≠ some 47) := by simp [hc]
   have h3 : ¬ ((47 :: c :: cs).length > 63) := by simp at hl ⊢; omega
-  have hup : upper (c :: cs) = c :: cs := a.up
   unfold normalizePath
   simp only [h1, Bool.false_eq_true, if_false]
   rw [if_pos h2, if_neg h3, hsp]
-  have hup' : upperByte c = c ∧ List.map upperByte cs = cs := by simpa [upper] using hup
-  simp [List.zipIdx, upper, hup'.1, hup'.2]
-
-theorem upper_fix_iff (l : Bytes) : upper l = l ↔ ∀ c ∈ l, upperByte c = c := by
-  unfold upper
-  induction l with
-  | nil => simp
-  | cons a t ih =>
-    simp only [List.map_cons, List.cons.injEq, List.mem_cons, forall_eq_or_imp]
-    rw [ih]
+  simp [List.zipIdx, upper]
 
 theorem mem_trimEnd {s : Bytes} {c : Nat} (h : c ∈ trimEnd s) : c ∈ s := by
   unfold trimEnd at h
@@ -231,23 +306,11 @@ theorem mem_trimEnd {s : Bytes} {c : Nat} (h : c ∈ trimEnd s) : c ∈ s := by
   have h2 := (List.dropWhile_sublist isAsciiSpace).subset h1
   simpa using h2
 
-theorem upper_keyOf {p : Bytes} (h : upper p = p) : upper (keyOf p) = keyOf p := by
-  rw [upper_fix_iff] at h ⊢
-  intro c hc
-  unfold keyOf at hc
-  split at hc
-  · exact h c (mem_trimEnd hc)
-  · rw [List.mem_append] at hc
-    cases hc with
-    | inl hc => exact h c (mem_trimEnd hc)
-    | inr hc =>
-      have : c = 46 := by simpa using hc
-      subst this; rfl
-
-theorem getFile_root {p : Bytes} (a : RootArg p) (files : List (Bytes × FInfo)) : getFile p files = files.lookup (keyOf p) := by
+/-- `get_file` of an upper-case name: one lookup -/
+theorem getFile_root (p : Bytes) (files : List (Bytes × FInfo)) : getFile (upper p) files = files.lookup (keyOf p) := by
   unfold getFile
-  have : (if p.contains 46 then trimEnd p else trimEnd p ++ [46]) = keyOf p := rfl
-  simp only [this, upper_keyOf a.up]
+  have : lookupKey (upper p) = keyOf p := rfl
+  simp only [this, upper_keyOf]
   cases files.lookup (keyOf p) <;> rfl
 
 /-- `goto_path` of a root-level name: the root is read, the map built, the key looked up; the state is untouched -/
@@ -259,20 +322,24 @@ theorem gotoPath_root {d : Disk} (g : Geo d) {p : Bytes} (a : RootArg p) :
         | some fi => .ok (some FInfo.root, fi), d) := by
   unfold gotoPath
   simp only [M_bind_apply, getRootDir_eq g, M.lift, normalizePath_root a]
-  have hne : ¬ ([p] = [[]]) := by
+  have hne : ¬ ([upper p] = [[]]) := by
     intro e
     injection e with e
-    exact a.ne e
+    have := congrArg List.length e
+    rw [upper_length] at this
+    exact a.ne (List.length_eq_zero_iff.mp this)
   simp only [hne, if_false, M_bind_apply, buildFilesM]
   cases hb : buildFiles d.labelFiles (dirOfBytes (rootBuf d)) with
   | error e => rfl
   | ok files =>
     simp only []
     unfold gotoLoop
-    have hw : (p.contains 42 || p.contains 63) = false := by
+    have hw : ((upper p).contains 42 || (upper p).contains 63) = false := by
       have h1 := a.noStar; have h2 := a.noQ
-      simp [h1, h2]
-    simp only [List.isEmpty_nil, hw, Bool.and_false, Bool.false_eq_true, if_false, getFile_root a]
+      have h1' : 42 ∉ upper p := fun h => h1 ((mem_upper_iff (by omega) (by omega) p).mp h)
+      have h2' : 63 ∉ upper p := fun h => h2 ((mem_upper_iff (by omega) (by omega) p).mp h)
+      simp [h1', h2']
+    simp only [List.isEmpty_nil, hw, Bool.and_false, Bool.false_eq_true, if_false, getFile_root]
     cases files.lookup (keyOf p) with
     | none => rfl
     | some fi => simp [M_pure_apply]
